@@ -191,11 +191,7 @@ Definition store_power (s : store) (i : Z) := get_power_table (s_ds s) (s_first 
 Definition delete_all_first_write : write := WTomb.
 Definition delete_all (d : dstore) : dstore := continue_delete (apply_write d WTomb).
 
-(* ---- subscribers: a one-slot buffer per subscriber; Put drains then sends ---- *)
-Definition chan := option cert.
-Definition notify (buf : chan) (c : cert) : chan * bool (* send would block? *) :=
-  let drained : chan := None in
-  match drained with None => (Some c, false) | Some _ => (drained, true) end.
+(* subscribers: Store/Subscribers.v *)
 
 (* ---- snapshots (certstore/snapshot.go) at block granularity ---- *)
 Record snapshot := mkSnap { sn_first : Z; sn_latest : Z; sn_init : table; sn_certs : list cert }.
